@@ -141,6 +141,34 @@ func execDecode(o *out, f [][]int) []int {
 				o.fail("entry-points-disagree", fmt.Sprintf("101 %s %s %s variant=%d", fHex(data), fHex(extra), fNums(entry, prevlen), vi))
 			}
 		}
+		// CloneTo from a source that WAS decoded and whose bytes were changed in place afterwards (its struct is
+		// stale): the clone is the decode of the source's bytes as they are now
+		if err == nil && !pan && len(data) >= 24 {
+			s := new(stun.Message)
+			if stun.Decode(data, s) == nil {
+				s.Raw[20] ^= 0x01 // another attribute type ...
+				s.Raw[0] ^= 0x01  // ... and another message type
+				s.Raw[9] ^= 0xFF  // ... and transaction ID
+				mm, ref := mk(), new(stun.Message)
+				var e1, e2 error
+				p1, _ := guarded(func() { e1 = s.CloneTo(mm) })
+				p2, _ := guarded(func() { e2 = stun.Decode(s.Raw, ref) })
+				bad := p1 || p2 || (e1 != nil) != (e2 != nil)
+				if !bad && e1 == nil && fmt.Sprint(serDecoded(mm)[:16]) != fmt.Sprint(serDecoded(ref)[:16]) {
+					bad = true
+				}
+				if !bad && e1 == nil {
+					a, b := serDecoded(mm), serDecoded(ref)
+					bad = len(a) != len(b)
+					for k := 0; !bad && k < len(a); k++ {
+						bad = a[k] != b[k]
+					}
+				}
+				if bad {
+					o.fail("clone-of-a-modified-source", fmt.Sprintf("101 %s %s %s (source decoded, then bytes 0, 9 and 20 changed in place, then CloneTo)", fHex(data), fHex(extra), fNums(entry, prevlen)))
+				}
+			}
+		}
 	default:
 		prev := make([]byte, len(extra))
 		copy(prev, extra)
